@@ -304,6 +304,8 @@ def batch_sequences(cfg, rng, count, maxrows=3, maxbatches=4):
         seq = []
         for _ in range(nb):
             n = rng.choice([0, 0, 1, 1, 2, 2, 3][:2 + 2 * maxrows - 1])
+            if fam == "ewm" and sum(len(x) for x in seq) + n > 5:
+                n = 0       # exact rationals of the weighted mean must stay inside TLC's 32-bit integers
             b = []
             for _ in range(n):
                 t += rng.choice(tdom)
